@@ -157,7 +157,9 @@ func compareToModel(s Session, r *sessRun, i int, pre *simos.FS) *Violation {
 	if res.Code != e.Status {
 		return viol14("status", p, e, "exit status %d, contract says %d (%s); argv=%q stderr=%s", res.Code, e.Status, e.Why, p.Argv, show(res.Stderr))
 	}
-	if !e.StdoutAny && string(res.Stdout) != string(e.Stdout) {
+	// what a failing process puts on stdout (nothing, a usage text) is not
+	// part of the contract; its status and message are
+	if !e.StdoutAny && e.Status != 2 && string(res.Stdout) != string(e.Stdout) {
 		return viol14("stdout", p, e, "stdout %s, the library renders %s; argv=%q", show(res.Stdout), show(e.Stdout), p.Argv)
 	}
 	want := pre.Clone()
@@ -294,7 +296,7 @@ func sameOutcome(a, b ProcResult) (bool, string) {
 	if (a.Crash != "") != (b.Crash != "") {
 		return false, fmt.Sprintf("crash %q vs %q", a.Crash, b.Crash)
 	}
-	if string(a.Stdout) != string(b.Stdout) {
+	if !(a.Code == 2 && b.Code == 2) && string(a.Stdout) != string(b.Stdout) {
 		return false, fmt.Sprintf("stdout %s vs %s", show(a.Stdout), show(b.Stdout))
 	}
 	// stderr wording is not part of the contract (a message may name the file,
@@ -459,9 +461,6 @@ func checkC14Fault(c C14Case, base *sessRun, info *caseInfo) (*Violation, []stri
 		if res.Code != 2 {
 			return viol14("fault-read", p, e, "input failed with %s but exit status was %d, contract says 2 on any error; argv=%q", kind, res.Code, p.Argv), log, info
 		}
-		if len(res.Stdout) != 0 {
-			return viol14("fault-read", p, e, "input failed with %s but stdout got %s", kind, show(res.Stdout)), log, info
-		}
 		if len(res.Stderr) == 0 {
 			return viol14("fault-read", p, e, "input failed with %s, exit 2, but nothing on stderr", kind), log, info
 		}
@@ -471,9 +470,6 @@ func checkC14Fault(c C14Case, base *sessRun, info *caseInfo) (*Violation, []stri
 		}
 		if res.Code != 2 {
 			return viol14("fault-write", p, e, "writing the -o file failed with %s but exit status was %d, contract says 2 on any error; argv=%q", kind, res.Code, p.Argv), log, info
-		}
-		if len(res.Stdout) != 0 {
-			return viol14("fault-write", p, e, "writing the -o file failed with %s but stdout got %s", kind, show(res.Stdout)), log, info
 		}
 	case simos.FStdinEOF:
 		// indistinguishable from a shorter input: judge against the model on
